@@ -3,13 +3,17 @@
 package main
 
 import (
+	"errors"
 	"fmt"
 
 	sdkmath "cosmossdk.io/math"
 	sdk "github.com/cosmos/cosmos-sdk/types"
 	"github.com/cosmos/gogoproto/proto"
 
+	channeltypes "github.com/cosmos/ibc-go/v8/modules/core/04-channel/types"
+
 	adapterctrl "github.com/noble-assets/orbiter/v2/controller/adapter"
+	adaptertypes "github.com/noble-assets/orbiter/v2/types/component/adapter"
 	orbitertypes "github.com/noble-assets/orbiter/v2/types"
 	actiontypes "github.com/noble-assets/orbiter/v2/types/controller/action"
 	forwardingtypes "github.com/noble-assets/orbiter/v2/types/controller/forwarding"
@@ -21,7 +25,29 @@ var parseObs = false
 type ParseObs struct {
 	Ok   bool   `json:"ok"`
 	Pure bool   `json:"pure"` // parsing the same memo again gives an equal result
+	Hist bool   `json:"hist"` // the chain's long-lived adapter (which has seen the whole history) agrees with a fresh parser
 	Err  string `json:"err"`
+}
+
+// appAdapterAccepts asks the app's own long-lived IBC adapter controller to parse the packet.
+// ok = accepted as an orbiter payload; notOrbiter = classified "not an orbiter packet".
+func (w *World) appAdapterAccepts(p channeltypes.Packet) (ok bool, notOrbiter bool, perr string) {
+	ctrl, found := w.app.OrbiterKeeper.Adapter().Router().Route(core.PROTOCOL_IBC)
+	if !found {
+		panic(machineryError{"no IBC adapter controller"})
+	}
+	cc, err := adaptertypes.NewIBCCrossChainPacket(p.GetSourcePort(), p.GetSourceChannel(), p.GetData())
+	must(err)
+	defer func() {
+		if r := recover(); r != nil {
+			ok, perr = false, fmt.Sprintf("PANIC: %v", r)
+		}
+	}()
+	_, err = ctrl.ParsePacket(cc)
+	if err != nil {
+		return false, errors.Is(err, core.ErrNoOrbiterPacket), err.Error()
+	}
+	return true, false, ""
 }
 
 type RoundTrip struct {
